@@ -1,63 +1,14 @@
-"""Registry of claimed properties: engine, budgets, evidence texts. MANIFEST.json is generated from this."""
+"""Registry of claimed properties. Each engine registers itself in scripts/props.d/<engine>.py, which
+defines ENGINES (name -> {pkg, kind}) and PROPS (id -> entry; see props.d/agreesim.py for the shape).
+MANIFEST.json is generated from the merged registry by scripts/gen_manifest.py."""
+import glob, os, runpy
 
-ENGINES = {
-    "agreesim": {"pkg": "./sim/agreesim",
-                 "kind": "N real agreement.Service instances in one testing/synctest bubble; simulator-owned ledger stub, network, clocks, worker pool; seeded scheduler decides every delivery, timer, fault and crash"},
-}
-
-AGREE_COMPONENTS = {
-    "real": ["agreement.Service (demux, player, router, vote/proposal trackers, pseudonode, cryptoVerifier, AsyncVoteVerifier, persistence to a real SQLite crash DB)",
-             "crypto (libsodium fork: ed25519, VRF, one-time signatures)", "data/committee credentials + sortition", "protocol codecs"],
-    "stub": ["ledger as seen by agreement (block map + static stake table)", "block factory/validator (deterministic per (node, round))",
-             "gossip network (simulated full mesh)", "timers.Clock (simulated per-node clock)", "execpool (single FIFO worker)"],
-}
-
-AGREE_ASSUME = [
-    "SQLite transactions on the agreement crash DB are atomic and durable at commit (crash granularity = storage transaction)",
-    "stake table is static during a run; block validation always accepts (the real ledger is exercised by other engines)",
-    "adversary holds at most 20% of total stake, so its committee weight stays far below the 2T-W overlap needed for two quorums",
-    "sampling, not enumeration: a clean batch is evidence, not proof",
-]
-
-PROPS = {
-    "C01": {
-        "engine": "agreesim", "level": "exploration", "budget": {"quick": 60, "thorough": 1200},
-        "rule": "one evaluation = one seeded simulated run (3-6 honest real agreement services + optional split-brain/crafting adversary, 2-5 rounds) under a drawn fault mix; "
-                "non-trivial = at least one round committed AND at least one fault/timer/reordering fired; distinct = distinct canonical event-log digest",
-        "components": AGREE_COMPONENTS, "assumptions": AGREE_ASSUME,
-        "technique": "deterministic simulation: seeded schedules x message loss/dup/reorder/partition x crash-restart x equivocating minority; invariant <=1 digest per round",
-        "level_text": "Seeded search over schedules, network faults, crash points and Byzantine-minority behaviour against the real agreement service; invariant checked after every scheduler step. Sampling evidence, not proof.",
-        "level_note": "Trusted: crypto primitives, SQLite atomic commit, the simulator's seams (ledger stub, network, clock). Stake static.",
-        "design_ref": "DESIGN.md §4 C01",
-    },
-    "C02": {
-        "engine": "agreesim", "level": "exploration", "budget": {"quick": 60, "thorough": 1200},
-        "rule": "one evaluation = one seeded run with crash/restart faults biased to the persist/send windows (seam-call crash triggers, slow ledger flush, quiescent crashes); "
-                "non-trivial = committed >=1 round AND >=1 crash; distinct = distinct event-log digest",
-        "components": AGREE_COMPONENTS, "assumptions": AGREE_ASSUME + ["block assembly is a pure function of (node, round); propose-step votes are excluded from the one-value rule because assemble/repropose are non-persistent by design"],
-        "technique": "deterministic simulation with crash injection at seam calls; history oracle over all incarnations + shadow-restore of the crash DB at send time",
-        "level_text": "Seeded search over crash placements (before persist, persisted-not-sent, partly sent) and schedules; history oracle: one value per (key, round, period, step>=soft) over all incarnations; shadow restore of the crash-DB image at every send instant must re-attest the same vote.",
-        "level_note": "Trusted: SQLite atomic commit; simulator seams. Crash granularity is the storage transaction.",
-        "design_ref": "DESIGN.md §4 C02",
-    },
-    "C03": {
-        "engine": "agreesim", "level": "exploration", "budget": {"quick": 60, "thorough": 1200},
-        "rule": "one evaluation = one seeded run as for C01; every Ensure* call is checked by an independent certificate checker (mirror decoding, one-time-signature + VRF primitives, sortition library); "
-                "non-trivial = >=1 certificate checked under >=1 fault; distinct = distinct event-log digest",
-        "components": AGREE_COMPONENTS, "assumptions": AGREE_ASSUME,
-        "technique": "deterministic simulation; independent certificate checker at every commit; votes in certificates must be byte-identical to votes a key holder emitted",
-        "level_text": "Every block handed to the ledger in every explored schedule is accompanied by a certificate that an independently written checker accepts (step, round, digest, distinct voters, signatures, credentials, weight >= threshold).",
-        "level_note": "Trusted: crypto primitives and the sortition library used by the reference checker.",
-        "design_ref": "DESIGN.md §4 C03",
-    },
-    "C05": {
-        "engine": "agreesim", "level": "exploration", "budget": {"quick": 60, "thorough": 1200},
-        "rule": "one evaluation = one seeded run: asynchronous prefix of 0-1500 scheduler steps with loss, partitions, stalls, crashes and arbitrary timer firing (nodes end up in different periods/steps/rounds), then GST: faults stop, "
-                "discrete-event phase with every message delivered within a drawn delta (20-600 ms), +-5% clock-rate skew, timers at their deadlines; non-trivial = the pending round was committed by every node in the synchronous phase; distinct = distinct event-log digest",
-        "components": AGREE_COMPONENTS, "assumptions": AGREE_ASSUME + ["liveness verdicts are issued only after faults stop; bound K=6 periods is fixed from the protocol argument with margin and validated on the unchanged tree"],
-        "technique": "deterministic simulation: adversarial asynchronous prefix, then bounded-delay discrete-event phase; bounded-liveness oracle (periods and simulated time after GST)",
-        "level_text": "Bounded liveness: after faults stop, every honest node commits the pending round within 6 periods (and 40 simulated minutes) in every explored run; starting states are produced by seeded asynchronous fault prefixes.",
-        "level_note": "Trusted: simulator clock/transport; honest supermajority online after GST; no adversary in liveness runs.",
-        "design_ref": "DESIGN.md §4 C05",
-    },
-}
+ENGINES = {}
+PROPS = {}
+for _f in sorted(glob.glob(os.path.join(os.path.dirname(os.path.abspath(__file__)), "props.d", "*.py"))):
+    _ns = runpy.run_path(_f)
+    ENGINES.update(_ns.get("ENGINES", {}))
+    for _k, _v in _ns.get("PROPS", {}).items():
+        if _k in PROPS:
+            raise SystemExit("property %s registered twice (%s)" % (_k, _f))
+        PROPS[_k] = _v
